@@ -833,6 +833,79 @@ func stackPart(c *vlib.Cases, r *vlib.Rng, thorough bool) {
 	}
 }
 
+// ownersCase: a long-lived stack whose preferred endpoint died (its breaker opened, later requests skip it), then many
+// clients at once, each with header lines only it sends (X-Owner-<id>, a session header, a tracing id).  Every upstream request
+// carries the header lines of the client it belongs to (identified by the number in its query) and nobody else's.
+func ownersCase(engine string, rounds, clients int) map[string]any {
+	a, b := stack.NewBackend("A"), stack.NewBackend("B")
+	defer a.Close()
+	defer b.Close()
+	s, err := stack.Start(stack.Opts{Vary: stack.VaryFor("c15.owners", engine), Engine: engine, Balancer: "priority", EPs: []stack.EP{
+		{Name: "A", Type: "openai", Priority: 300, Backend: a}, {Name: "B", Type: "openai", Priority: 100, Backend: b}}})
+	if err != nil {
+		return map[string]any{"start_err": err.Error()}
+	}
+	defer s.Stop()
+	okB := stack.Behaviour{Kind: "ok", Status: 200, Headers: [][2]string{{"Content-Type", "application/json"}}, Body: []byte(`{"ok":true}`)}
+	b.SetBehaviour(okB)
+	vlib.Breadcrumb(map[string]any{"kind": "owners", "engine": engine, "rounds": rounds, "clients": clients, "what": "preferred endpoint's breaker opened, then bursts of concurrent clients each with its own X-Owner-<id> / X-Session / X-Trace header lines"})
+	send := func(id string, extra [][2]string) {
+		h := append([][2]string{{"Content-Type", "application/json"}}, extra...)
+		stack.Do(s.Addr, stack.Request("POST", "/olla/proxy/v1/chat/completions?n="+id, s.Addr, h, []byte(`{}`), false), 5*time.Second)
+	}
+	// the preferred endpoint closes every exchange without an answer until its breaker is open; then requests skip it
+	a.SetBehaviour(stack.Behaviour{Kind: "close0"})
+	for i := 0; i < 9; i++ {
+		send(fmt.Sprintf("prime%d", i), nil)
+		s.SetStatus("A", domain.StatusHealthy)
+	}
+	a.SetBehaviour(okB)
+	a.Taken()
+	b.Taken()
+	total, wrong, first := 0, 0, ""
+	for r := 0; r < rounds; r++ {
+		var wg sync.WaitGroup
+		for k := 0; k < clients; k++ {
+			wg.Add(1)
+			go func(k int) {
+				defer wg.Done()
+				id := fmt.Sprintf("r%dk%d", r, k)
+				send(id, [][2]string{{"X-Owner-" + id, id}, {"X-Session", "session=" + id}, {"X-Trace", "t-" + id}})
+			}(k)
+		}
+		wg.Wait()
+		s.SetStatus("A", domain.StatusHealthy)
+		for _, be := range []*stack.Backend{a, b} {
+			for _, sn := range be.Taken() {
+				total++
+				id := strings.TrimPrefix(sn.RawQuery, "n=")
+				bad := ""
+				for name, vals := range sn.Header {
+					if strings.HasPrefix(name, "X-Owner-") && !strings.EqualFold(name, "X-Owner-"+id) {
+						bad = "carries " + name
+					}
+					if name == "X-Session" && (len(vals) != 1 || vals[0] != "session="+id) {
+						bad = fmt.Sprintf("X-Session %v", vals)
+					}
+					if name == "X-Trace" && (len(vals) != 1 || vals[0] != "t-"+id) {
+						bad = fmt.Sprintf("X-Trace %v", vals)
+					}
+				}
+				if len(sn.Header["X-Session"]) == 0 || len(sn.Header["X-Trace"]) == 0 {
+					bad = "lost its X-Session / X-Trace"
+				}
+				if bad != "" {
+					wrong++
+					if first == "" {
+						first = fmt.Sprintf("round %d: the upstream request of client %s %s", r, id, bad)
+					}
+				}
+			}
+		}
+	}
+	return map[string]any{"requests_seen": total, "wrong": wrong, "first": first, "rounds": rounds, "clients": clients}
+}
+
 func main() {
 	tier := vlib.Tier()
 	r := vlib.NewRng(vlib.Seed())
@@ -845,6 +918,12 @@ func main() {
 	note := "every letter-case variant (2^letters) of every listed name with at most 14 letters goes through core.CopyHeaders one by one; names with more letters: first/last 4096 variants and 8 random windows of 4096 (quick), all variants (thorough)"
 	if thorough {
 		note = "every letter-case variant (2^letters, up to 2^18) of every sensitive / hop-by-hop name goes through core.CopyHeaders one by one"
+	}
+	if os.Getenv("VERIF_C15_NOSTACK") == "" {
+		for _, engine := range []string{"sherpa", "olla"} {
+			c.Emit(map[string]any{"kind": "owners", "engine": engine, "impl": ownersCase(engine, map[bool]int{false: 100, true: 1000}[thorough], 24)})
+			c.Count("owners." + engine)
+		}
 	}
 	c.Close(map[string]any{"exhaustive": true, "exhaustive_note": note})
 }
